@@ -167,7 +167,7 @@ def run(R, tier):
                           '-60..60 (and fractional); holiday subsets; direct helper calls and formulas; plus datetime/calendar library facts for the '
                           'calendar model; non-trivial = month outside 1..12 or day outside 1..28, or any two-date case; distinct by recipe')
     C.proof_obligations(R, 'theories/Props/C15.v', 'Props.C15', TARGETS)
-    if any('build failed' in b for b in R.broken):
+    if any('Coq build failed' in b for b in R.broken):
         return
     n = 500 if tier == 'quick' else 8000
     recipes = corpus() + gen_recipes(R.rng, n)
